@@ -98,16 +98,23 @@ pub fn gen_value(t: &Ty, types: &Types, rng: &mut Rng) -> Value {
     }
 }
 
-/// `null` and an absent member are the same thing for a nullable member.
+/// `null` and an absent member are the same thing for a nullable member. At the top level (the whole `parameters`
+/// value) "no parameters at all" may be spelled `null` / absent or `{}`; below that an object is an object: a member
+/// declared `()` (the empty struct) carries `{}`, never `null`.
 pub fn eq_modulo_null(a: &Value, b: &Value) -> bool {
+    match (a, b) {
+        (Value::Null, Value::Object(o)) | (Value::Object(o), Value::Null) => o.values().all(|v| v.is_null()),
+        _ => eq_inner(a, b),
+    }
+}
+
+fn eq_inner(a: &Value, b: &Value) -> bool {
     match (a, b) {
         (Value::Object(x), Value::Object(y)) => {
             let keys: std::collections::BTreeSet<&String> = x.keys().chain(y.keys()).collect();
-            keys.into_iter().all(|k| eq_modulo_null(x.get(k).unwrap_or(&Value::Null), y.get(k).unwrap_or(&Value::Null)))
+            keys.into_iter().all(|k| eq_inner(x.get(k).unwrap_or(&Value::Null), y.get(k).unwrap_or(&Value::Null)))
         }
-        (Value::Array(x), Value::Array(y)) => x.len() == y.len() && x.iter().zip(y).all(|(p, q)| eq_modulo_null(p, q)),
-        // no parameters at all: `null` (a unit output) and `{}`
-        (Value::Null, Value::Object(o)) | (Value::Object(o), Value::Null) => o.values().all(|v| v.is_null()),
+        (Value::Array(x), Value::Array(y)) => x.len() == y.len() && x.iter().zip(y).all(|(p, q)| eq_inner(p, q)),
         (Value::Number(x), Value::Number(y)) => x == y || x.as_f64() == y.as_f64(),
         _ => a == b,
     }
